@@ -298,6 +298,14 @@ def run(rep, tier, seed, wd):
         exp = exp if isinstance(exp, dict) else {}
         if info["kind"] == "match":
             key = "trace:match:%s:%s:exp-%s:obs-%s" % (info["ctx"], info["p"]["k"], "ok" if exp.get("ok") else "fail", info["o"])
+            if info["ctx"] == "decl" and exp.get("ok") and info["o"] == "ok" and R.has_kind(info["p"], ("or",)):
+                # everything the specification binds is bound as it says, and MORE names are: what a failed
+                # alternative of an `or` declared before it failed (the known missing rollback)
+                want = {b["n"]: b["v"] for b in exp.get("b") or []}
+                got = {n: R.canon_to_spec(c) for n, c in zip(names_of_all(info["p"]), info["st"].get("obs") or [])
+                       if c.get("t") != "undef"}
+                if set(want) < set(got) and all(c12.spec_eq(got[n], v) for n, v in want.items()):
+                    key = "trace:match:decl:or-leftover-binding"
             rep.mismatch(key, "`%s`: observed %s, specification %s" % (
                 info["src"], info["o"], ("binds " + json.dumps(exp.get("b"))[:300]) if exp.get("ok") else "no match"),
                 {"steps": R.PRELUDE + [info["src"]], "expected": exp, "observed": info["st"]})
